@@ -1,6 +1,7 @@
 package main
 
 import (
+	"bytes"
 	"encoding/json"
 	"fmt"
 
@@ -19,7 +20,7 @@ func mcSkip(c *Ctx, quickCfg string) {
 }
 
 func checkC02(c *Ctx) {
-	c.rule = "MC: over every byte string up to MaxLen over a grammar alphabet and every type, the reference grammar is self-delimiting (extent independent of trailing bytes; every strict prefix short). TRACE: one case = (typed value tree of a given type + trailing bytes); all 11x11 map and 11 list/set element combinations x counts 0,1,2,7; nesting 1..63 of every container kind; seeded random trees (depth<=5, strings up to 72KB); each is fed to the five skippers under bytes-backed, fitting, 1-byte, zero-byte and data+EOF source shapes; TLC computes the reference extent and judges success, length, returned bytes and source position. Containers of fixed-size elements of 4 GiB and more are skipped from a lazily mapped buffer and compared with the extent formula in Go. LIVE CONNECTIONS: every stream skipper also runs on an exact-demand source (the value's bytes have arrived, nothing more; a Read after the last byte is over-demand and rejected) and the ReaderSkipDecoder (fresh and pooled) on a connection-like source whose Len / Buffered / Available report what is readable right now. STACK-RESIDENT INPUTS: thrift.Binary.Skip also runs on every input (up to 1536 bytes) copied into a local array on a fresh goroutine that starts with the minimum stack, with goroutines parked on stacks of various sizes, so that the recursion has to move the stack (and the input) while skipping; deep chains cut short are part of the inputs. The giant-value monitor also skips strings of 2^30+1 .. 2^31-1 bytes that are really present, bare, in a list and in a struct. A sixth skipper (the exported template over a foreign SkipN that reuses one scratch window) runs on every input."
+	c.rule = "MC: over every byte string up to MaxLen over a grammar alphabet and every type, the reference grammar is self-delimiting (extent independent of trailing bytes; every strict prefix short). TRACE: one case = (typed value tree of a given type + trailing bytes); all 11x11 map and 11 list/set element combinations x counts 0,1,2,7; nesting 1..63 of every container kind; seeded random trees (depth<=5, strings up to 72KB); each is fed to the five skippers under bytes-backed, fitting, 1-byte, zero-byte and data+EOF source shapes; TLC computes the reference extent and judges success, length, returned bytes and source position. Containers of fixed-size elements of 4 GiB and more are skipped from a lazily mapped buffer and compared with the extent formula in Go. LIVE CONNECTIONS: every stream skipper also runs on an exact-demand source (the value's bytes have arrived, nothing more; a Read after the last byte is over-demand and rejected) and the ReaderSkipDecoder (fresh and pooled) on a connection-like source whose Len / Buffered / Available report what is readable right now. STACK-RESIDENT INPUTS: thrift.Binary.Skip also runs on every input (up to 1536 bytes) copied into a local array on a fresh goroutine that starts with the minimum stack, with goroutines parked on stacks of various sizes, so that the recursion has to move the stack (and the input) while skipping; deep chains cut short are part of the inputs. The giant-value monitor also skips strings of 2^30+1 .. 2^31-1 bytes that are really present, bare, in a list and in a struct. A sixth skipper (the exported template over a foreign SkipN that reuses one scratch window) runs on every input. Sessions may start with values the decoder has to reject (the caller skips those frames) before the well-formed ones."
 	mcSkip(c, "MC_ThriftSkip_small.cfg")
 	c.TraceCheck(famSkipC02, wellFormedSkipCases(c, c.Pick(4000, 60000), 2))
 	// sessions: one decoder / reader instance skips 2..6 consecutive values (state carried between calls,
@@ -114,7 +115,7 @@ func giantSkipValues(c *Ctx) {
 }
 
 func checkC08(c *Ctx) {
-	c.rule = "MC: grammar facts (prefix rejection, negative sizes and unknown tags stay rejected under cutting, strict = lenient below depth 64) over every string up to MaxLen over a grammar alphabet x 15 type tags. TRACE: hostile inputs derived from generated valid encodings (every cut point, structural bytes x boundary values, size fields x {7fffffff,80000000,ffffffff,...}, foreign requested types incl. >= 0x80), nesting 1..70 of every container kind x {empty, scalar, string} bottoms, raw strings over the grammar alphabet; every skipper's (ok n | err) must lie in the admissible set {strict, lenient} computed by TLC. STACK-RESIDENT INPUTS: thrift.Binary.Skip also runs on every input (up to 1536 bytes) copied into a local array on a fresh goroutine that starts with the minimum stack, with goroutines parked on stacks of various sizes, so that the recursion has to move the stack (and the input) while skipping; deep chains cut short are part of the inputs."
+	c.rule = "MC: grammar facts (prefix rejection, negative sizes and unknown tags stay rejected under cutting, strict = lenient below depth 64) over every string up to MaxLen over a grammar alphabet x 15 type tags. TRACE: hostile inputs derived from generated valid encodings (every cut point, structural bytes x boundary values, size fields x {7fffffff,80000000,ffffffff,...}, foreign requested types incl. >= 0x80), nesting 1..70 of every container kind x {empty, scalar, string} bottoms, raw strings over the grammar alphabet; every skipper's (ok n | err) must lie in the admissible set {strict, lenient} computed by TLC. STACK-RESIDENT INPUTS: thrift.Binary.Skip also runs on every input (up to 1536 bytes) copied into a local array on a fresh goroutine that starts with the minimum stack, with goroutines parked on stacks of various sizes, so that the recursion has to move the stack (and the input) while skipping; deep chains cut short are part of the inputs. Sessions in which a SkipDecoder is used again right after it rejected a value on grammar grounds are judged as a family of their own."
 	mcSkip(c, "MC_ThriftSkip_quick.cfg")
 	cases := hostileSkipCases(c, c.Pick(120, 2500), 8)
 	cases = append(cases, wellFormedSkipCases(c, c.Pick(300, 5000), 88)...)
@@ -127,6 +128,14 @@ func checkC08(c *Ctx) {
 		c.MC("MC_SkipMachine.tla", "MC_SkipMachine_quick.cfg", 8)
 	}
 	c.TraceCheck(famTpl, cases)
+	// decoders reused after they have rejected something (the sessions whose stream starts with malformed values)
+	var after []json.RawMessage
+	for _, sc := range skipSeqCases(c, c.Pick(900, 9000)) {
+		if bytes.Contains(sc, []byte(`"fail":true`)) {
+			after = append(after, sc)
+		}
+	}
+	c.TraceCheck(famSkipSeqC08, after)
 	c.Assume("inputs declaring more than 1 MiB are fed only to the non-allocating skippers (thrift.Binary.Skip, BytesSkipDecoder): the reader-backed ones allocate what is declared")
 }
 
